@@ -159,9 +159,12 @@ func (p *PoolProc) Post(body string) (int, string, error) {
 type WS struct{ C *websocket.Conn }
 
 // DialWS opens a WebSocket connection.
-func (p *PoolProc) DialWS() (*WS, error) {
+func (p *PoolProc) DialWS() (*WS, error) { return p.DialWSHeader(nil) }
+
+// DialWSHeader opens a WebSocket connection sending the given extra handshake headers.
+func (p *PoolProc) DialWSHeader(h http.Header) (*WS, error) {
 	d := websocket.Dialer{HandshakeTimeout: 60 * time.Second}
-	c, _, err := d.Dial("ws://"+p.Addr+"/", nil)
+	c, _, err := d.Dial("ws://"+p.Addr+"/", h)
 	if err != nil {
 		return nil, err
 	}
